@@ -91,7 +91,17 @@ func cliAutoScript(t *testing.T, r *Rng, s *Stream) {
 	mkReply := func(mt uint8, xid uint32, yi net.IP, lease, t1, t2 int64, variant string) []byte {
 		opts := []dhcpmsg.DHCPOpt{dhcpmsg.OptionType(mt), dhcpmsg.OptionServerIdentifier(srvIP)}
 		if mt != 6 {
-			opts = append(opts, dhcpmsg.OptionIPAddressLeaseDuration(time.Duration(lease)*time.Second), dhcpmsg.OptionRouter(net.IPv4(10, 0, 0, byte(1+r.Intn(3)))))
+			if variant == "lease59" {
+				lease = 59
+			}
+			opts = append(opts, dhcpmsg.OptionIPAddressLeaseDuration(time.Duration(lease)*time.Second))
+			switch variant {
+			case "norouter":
+			case "badrouter": // a router option whose length is not a multiple of four decodes to an empty list
+				opts = append(opts, dhcpmsg.DHCPOpt{Option: 3, Data: []byte{10, 0, 0, 1, 9}})
+			default:
+				opts = append(opts, dhcpmsg.OptionRouter(net.IPv4(10, 0, 0, byte(1+r.Intn(3)))))
+			}
 			if variant != "nomask" {
 				opts = append(opts, dhcpmsg.DHCPOpt{Option: 1, Data: Pick(r, []byte{255, 255, 255, 0}, []byte{255, 255, 0, 0}, []byte{255, 0, 255, 0})})
 			}
@@ -221,6 +231,12 @@ func cliAutoScript(t *testing.T, r *Rng, s *Stream) {
 			seg.Inject(0x0800, wrap(bad))
 			seg.Inject(0x0800, wrap(mkReply(2, q.M.Xid, net.IPv4zero, lease, 0, 0, "")))
 			seg.Inject(0x0800, []byte{0x45, 0, 0})
+			// the awaited type with the right transaction id and address, but unusable: no (usable) router, lease below a minute
+			mtv := uint8(5)
+			if state == "discover" {
+				mtv = 2
+			}
+			seg.Inject(0x0800, wrap(mkReply(mtv, q.M.Xid, offered, lease, 0, 0, Pick(r, "norouter", "badrouter", "lease59"))))
 			a.ev("D")
 		case "silent":
 			a.ev("D")
